@@ -68,6 +68,11 @@ func constStrings(p *Prog, v ssa.Value) []string {
 }
 
 func runC18(c *Ctx) {
+	if !importing {
+		// the ticket store "at worst is forgotten but never blocks start-up": what serialize writes must be
+		// something loadTicketStore accepts (C15's serialize rule)
+		importObls(c, "C15", runC15, "X15", func(k string) bool { return containsAny(k, "(*ssTicketStore).serialize") })
+	}
 	p := c.P
 	// ---- R1a: the atomic helper(s): functions that call os.Rename
 	helpers := map[*ssa.Function]bool{}
